@@ -144,9 +144,18 @@ class Config:
                 return s.replace(local_config_dir, replace_config_dir)
             return s
 
+        def escape_interpolation(s):
+            # Values are read after interpolation. Escape `$` so that reading the dict back
+            # (which interpolates again) yields the same effective value.
+            if isinstance(s, str):
+                return s.replace("$", "$$")
+            return s
+
         def convert_to_dict(path, obj):
             if isinstance(obj, SectionProxy):
-                result[path] = {k: substitute_config_dir(v) for k, v in obj.items()}
+                result[path] = {
+                    k: escape_interpolation(substitute_config_dir(v)) for k, v in obj.items()
+                }
                 return
             for key in obj.keys():
                 convert_to_dict(f"{path}.{key}" if path else key, obj[key])
